@@ -104,7 +104,7 @@ structure Inv (g : IG) (plen n : Nat) (G : Nat → Prop) (st : St) : Prop where
   recd : ∀ v ∈ st.visited, isMatch g plen 0 (some v) = true → matchList g (plen - 1) v ∈ st.matches_
   closed : ∀ v ∈ st.visited, ¬ G v → ∀ w ∈ g.next v, w ∈ st.visited
 
-theorem length_le_of_nodup_lt' (l : List Nat) (n : Nat) (hn : l.Nodup) (hb : ∀ x ∈ l, x < n) : l.length ≤ n := by
+theorem length_le_of_nodup_bound (l : List Nat) (n : Nat) (hn : l.Nodup) (hb : ∀ x ∈ l, x < n) : l.length ≤ n := by
   induction n generalizing l with
   | zero =>
     cases l with
@@ -138,7 +138,7 @@ theorem find_complete (g : IG) (plen n : Nat) (hb : ∀ a, a < n → ∀ b ∈ g
   | zero =>
     intro cur st G hc hinv hf
     exfalso
-    have := length_le_of_nodup_lt' st.visited n hinv.nodup hinv.bound
+    have := length_le_of_nodup_bound st.visited n hinv.nodup hinv.bound
     omega
   | succ f ih =>
     intro cur st G hc hinv hf
